@@ -293,6 +293,7 @@ func c09Dumb(sc *C09Sc, env *Env) *Violation {
 	bus.IOSeed, bus.KeepPorts = sc.IOSeed, true
 	var specPorts []world.Acc
 	var nIn uint64
+	ownCode := false
 	out := model.BlockSpec(model.BlockIn{
 		Op: sc.Op, PC: pc, A: uint8(regs.AF >> 8), F: uint8(regs.AF), BC: regs.BC, DE: regs.DE, HL: regs.HL, Mem: &specMem, Len: sc.DumbLen,
 		PortIn: func(p uint8) uint8 {
@@ -301,9 +302,35 @@ func c09Dumb(sc *C09Sc, env *Env) *Violation {
 			specPorts = append(specPorts, world.Acc{Kind: world.PI, Addr: uint16(p), Val: v})
 			return v
 		},
-		PortOut: func(p uint8, v uint8) { specPorts = append(specPorts, world.Acc{Kind: world.PO, Addr: uint16(p), Val: v}) },
+		PortOut: func(p uint8, v uint8) {
+			specPorts = append(specPorts, world.Acc{Kind: world.PO, Addr: uint16(p), Val: v})
+		},
+		OnElem: func(i int, rd, wr int32) {
+			if wr == int32(pc) || wr == int32(pc+1) {
+				ownCode = true
+			}
+		},
 	})
 	cpu := &z80.CPU{States: regs.States(), Memory: dm, IO: bus.IO()}
+	// one in four: no I/O device attached. The transfers go nowhere (what an input form stores is not
+	// specified), the operation itself - counters, pointers, Z, number of Steps - is the same
+	nilIO := sc.IOSeed>>1&3 == 3 && !(sc.Op&3 == 2 && ownCode) // (unspecified input bytes landing on the instruction itself: not this variant)
+	if sc.IOSeed&1 == 1 {
+		// the CPU object has a past: it performed an element of the same operation on ANOTHER memory and
+		// port device of the host's before the host attached these ones and loaded the registers
+		decoy := make(z80.DumbMemory, sc.DumbLen)
+		copy(decoy, img[:])
+		db := world.NewBus()
+		db.IOSeed = ^sc.IOSeed
+		cpu.Memory, cpu.IO = decoy, db.IO()
+		cpu.Step()
+		cpu.Memory, cpu.IO, cpu.States = dm, bus.IO(), regs.States()
+		env.Fire("cpu-object-used-before-on-another-memory")
+	}
+	if nilIO {
+		cpu.IO = nil
+		env.Fire("no-io-device-attached")
+	}
 	name := fmt.Sprintf("ED %02X at %04x BC=%04x DE=%04x HL=%04x A=%02x on DumbMemory(len %d)", sc.Op, pc, regs.BC, regs.DE, regs.HL, regs.AF>>8, sc.DumbLen)
 	steps := 0
 	for steps < out.Elems {
@@ -336,9 +363,12 @@ func c09Dumb(sc *C09Sc, env *Env) *Violation {
 		return viol("final-flags", "%s: documented flags (mask %02x) = %02x, specification %02x", name, out.FMask, gf&out.FMask, out.FVal)
 	}
 	for a := 0; a < sc.DumbLen; a++ {
-		if dm[a] != specMem[a] {
+		if dm[a] != specMem[a] && !(nilIO && sc.Op&3 == 2) {
 			return viol("final-memory", "%s: memory[%04x]=%02x, specification %02x", name, a, dm[a], specMem[a])
 		}
+	}
+	if nilIO {
+		specPorts = nil
 	}
 	if len(bus.PortLog) != len(specPorts) {
 		return viol("port-log", "%s: %d port accesses, specification %d", name, len(bus.PortLog), len(specPorts))
